@@ -192,7 +192,9 @@ func (g *gen) ring(d int) string {
 	}
 	closing := parts[0]
 	if g.mutate("ring") {
-		switch rapid.IntRange(0, 3).Draw(t, "ringmut") {
+		switch rapid.IntRange(0, 4).Draw(t, "ringmut") {
+		case 4: // almost closed: the last position misses the first by a hair
+			closing = nearMiss(parts[0], rapid.SampledFrom([]string{"0000000001", "000000000000001", "00001"}).Draw(t, "hair"))
 		case 0: // not closed
 			closing = g.position(d, false)
 		case 1: // too short: two distinct positions + closing
@@ -455,4 +457,27 @@ func Doc(t *rapid.T, o Opts) string {
 		s = s[:rapid.IntRange(1, len(s)-1).Draw(t, "cut")]
 	}
 	return s
+}
+
+// nearMiss returns the position text with its first ordinate changed by a tiny amount (appending digits to
+// its decimal expansion); positions whose first ordinate is not a plain decimal are returned unchanged.
+func nearMiss(pos, digits string) string {
+	i := strings.IndexByte(pos, '[')
+	j := strings.IndexByte(pos, ',')
+	if i < 0 || j < i {
+		return pos
+	}
+	num := strings.TrimSpace(pos[i+1 : j])
+	if num == "" || strings.ContainsAny(num, "eE") {
+		return pos
+	}
+	if _, err := strconv.ParseFloat(num, 64); err != nil {
+		return pos
+	}
+	if strings.Contains(num, ".") {
+		num += digits
+	} else {
+		num += "." + digits
+	}
+	return pos[:i+1] + num + pos[j:]
 }
